@@ -233,7 +233,19 @@ def gen_rpc(rng, tcp, fault=None, shadow_ok=False):
     if fault == 'reply':
         mtype = 1
     body = struct.pack('>IIIIII', xid, mtype, rpcv, prog, ver, proc)
-    body += struct.pack('>II', rng.choice([0, 1]), credlen) + rng.bytes(credlen)
+    flavor = rng.choice([0, 1, 1, 2, 3, 6])
+    creds = rng.bytes(credlen)
+    if flavor == 1 and rng.chance(2, 3):
+        # AUTH_SYS body (RFC 5531 appendix A): stamp, machine name, uid, gid, gids -- with name / gid counts that may lie
+        name = bytes(0x61 + rng.below(26) for _ in range(rng.choice([0, 1, 4, 5, 16, 255])))
+        nlen = rng.choice([len(name), len(name), len(name), len(name) + 1, len(name) + 12, 16, 255, 256, 0xffffffff])
+        gids = rng.below(4)
+        glen = rng.choice([gids, gids, gids + 1, 16, 17, 0xffffffff])
+        creds = struct.pack('>II', rng.u32(), nlen) + name + bytes(-len(name) % 4) + struct.pack('>III', 0, 0, glen) + rng.bytes(4 * gids)
+        if rng.chance(1, 4):
+            creds = creds[:rng.choice([8, 12, len(creds) // 2])]
+        credlen = len(creds)
+    body += struct.pack('>II', flavor, credlen) + creds
     body += struct.pack('>II', 0, verflen) + rng.bytes(verflen)
     if rng.chance(1, 3):
         body += rng.bytes(rng.below(12))
